@@ -6,7 +6,7 @@
    (update_subtree) OpsRefineAll.v. *)
 From Coq Require Import List Bool Arith.
 From GolemV Require Import Graph.Heap Graph.Ops Graph.OpsSpec Graph.OpsBase Graph.OpsDfs Graph.OpsProofs
-  Graph.OpsProofs2 Graph.OpsChar Graph.OpsAcyclic Graph.OpsRefine Graph.OpsOracle Graph.OpsSink Graph.OpsRefine2 Graph.OpsCleanup Graph.OpsRefine3 Graph.OpsRefineAll Graph.OpsFrame.
+  Graph.OpsProofs2 Graph.OpsChar Graph.OpsAcyclic Graph.OpsRefine Graph.OpsOracle Graph.OpsSink Graph.OpsRefine2 Graph.OpsCleanup Graph.OpsRefine3 Graph.OpsRefineAll Graph.OpsFrame Graph.OpsSpecPlain.
 Import ListNotations.
 
 (* ---------------------------------------------------------------- the oracle decides the stated notions *)
@@ -233,6 +233,19 @@ Theorem C04_connect_disconnect_touch_only_the_child : forall h g p c cl h' g',
   forall r, r <> c -> get h' r = get h r.
 Proof. intros h g p c cl h' g' [E|E]; [eapply connect_frame|eapply disconnect_frame]; eauto. Qed.
 Print Assumptions C04_connect_disconnect_touch_only_the_child.
+
+(* user node classes with an ordinary list as parent container (uniq = false): connect_nodes and
+   disconnect_nodes never link a parent twice, whatever the container kind (the explicit "already a
+   child" test of connect_nodes is what guarantees it for plain lists) *)
+Theorem C04_connect_no_duplicate_any_container : forall h g p c h' g', c < length h -> In c g ->
+  connect_nodes h g p c = Ok (h', g') -> forall r, NoDup (pars h r) -> NoDup (pars h' r).
+Proof. exact connect_keeps_nodup_any_container. Qed.
+Print Assumptions C04_connect_no_duplicate_any_container.
+
+Theorem C04_disconnect_no_duplicate_any_container : forall h g p c cl h' g', c < length h ->
+  disconnect_nodes h g p c cl = Ok (h', g') -> forall r, NoDup (pars h r) -> NoDup (pars h' r).
+Proof. exact disconnect_keeps_nodup_any_container. Qed.
+Print Assumptions C04_disconnect_no_duplicate_any_container.
 
 (* ---------------------------------------------------------------- T1.5  GraphDelegate *)
 Theorem C04_delegate_forwards : forall s o, gd_run_op s o = run_op s o.
